@@ -73,3 +73,22 @@ Example accessors_example :
   | _ => False
   end.
 Proof. vm_compute. repeat split; reflexivity. Qed.
+
+(* ---- hostile arrays (what the loader accepts without checking): the bounds-checked readers answer None ---- *)
+From SudachiVerif Require Model.Trie Model.WordIdTable.
+Example trie_hostile_array_out_of_bounds :
+  Trie.traverse_opt [4294967295%N] [97%N] 0 = None.
+Proof. vm_compute. reflexivity. Qed.
+Example wid_table_hostile_out_of_bounds :
+  WordIdTable.entries [3; 1; 0; 0; 0]%N 0%N = None /\ WordIdTable.entries [1; 7; 0; 0; 0]%N 0%N = Some [7%N].
+Proof. vm_compute. split; reflexivity. Qed.
+(* ---- concat_nodes: inverted byte order / oversized head word lengths panic in the panicking variant ---- *)
+From SudachiVerif Require Import Proofs.SitesConcat.
+Definition cn (cb ce bb_ be_ : nat) : Rewrite.node := Rewrite.mkN cb ce bb_ be_ [] [] [] [] 0 0 false 0 0.
+Example concat_sites :
+  pconcat (fun _ => 3%N) true (fun g => hd Rewrite.dnode g) [cn 0 1 0 3; cn 1 2 3 6] 0 2 = COk [cn 0 1 0 3]
+  /\ pconcat (fun _ => 3%N) true (fun g => hd Rewrite.dnode g) [cn 0 1 0 3; cn 1 2 3 6] 0 3 = CPanic C_index_end
+  /\ pconcat (fun _ => 3%N) true (fun g => hd Rewrite.dnode g) [cn 1 2 3 6; cn 0 1 0 2] 0 2 = CPanic C_bytes_sub
+  /\ pconcat (fun _ => 40000%N) true (fun g => hd Rewrite.dnode g) [cn 0 1 0 3; cn 1 2 3 6] 0 2 = CPanic C_hw_add
+  /\ pconcat (fun _ => 3%N) true (fun g => hd Rewrite.dnode g) [cn 0 1 0 3; cn 1 2 3 6] 1 1 = CErrRange.
+Proof. vm_compute. repeat split; reflexivity. Qed.
